@@ -89,6 +89,15 @@ type fileSymbols struct {
 	packages map[string]bool
 }
 
+// sessionPackages is what the files of one minify session say about packages,
+// taken together: a package may be spread over several files, with its
+// (export ...) and (use-package ...) forms in a different file than the
+// definitions and references they govern.
+type sessionPackages struct {
+	exported map[string]map[string]bool // package -> exported names
+	imports  map[string][]string        // package -> packages it uses, in input order
+}
+
 type preservationSet struct {
 	names      map[string]bool
 	symbols    map[*analysis.Symbol]bool
@@ -119,14 +128,15 @@ func Minify(inputs []InputFile, cfg *Config) (*Result, error) {
 		files = append(files, file)
 	}
 
-	perFile, pkgExports := scanInputSymbols(files, cfg)
+	perFile, pkgExports, session := scanInputSymbols(files, cfg)
 	paths := make([]string, len(files))
 	for i := range files {
 		paths[i] = files[i].path
 	}
 	for i := range files {
-		fileCfg := mergeAnalysisConfig(cfg.Analysis, files[i].path, paths, perFile, pkgExports)
+		fileCfg := mergeAnalysisConfig(cfg.Analysis, files[i].path, paths, perFile, pkgExports, session)
 		files[i].analysis = analysis.Analyze(files[i].exprs, fileCfg)
+		markSessionExports(files[i].analysis, session)
 	}
 
 	protected := buildPreservationSet(files, cfg)
@@ -216,12 +226,20 @@ func parseFile(input InputFile) (parsedFile, error) {
 	}, nil
 }
 
-func mergeAnalysisConfig(base *analysis.Config, filename string, paths []string, perFile map[string]fileSymbols, pkgExports map[string][]analysis.ExternalSymbol) *analysis.Config {
+func mergeAnalysisConfig(base *analysis.Config, filename string, paths []string, perFile map[string]fileSymbols, pkgExports map[string][]analysis.ExternalSymbol, session *sessionPackages) *analysis.Config {
 	cfg := &analysis.Config{Filename: filename}
 	if base != nil {
 		cfg.ExtraGlobals = append(cfg.ExtraGlobals, base.ExtraGlobals...)
 		cfg.PackageExports = copyPackageExports(base.PackageExports)
 		cfg.DefForms = append(cfg.DefForms, base.DefForms...)
+	}
+	// (use-package ...) written in one file of a package holds for every file
+	// of that package: the runtime imports into the package, not into a file.
+	if len(session.imports) > 0 {
+		cfg.PackageImports = make(map[string][]string, len(session.imports))
+		for pkg, used := range session.imports {
+			cfg.PackageImports[pkg] = append([]string(nil), used...)
+		}
 	}
 	if cfg.PackageExports == nil {
 		cfg.PackageExports = make(map[string][]analysis.ExternalSymbol)
@@ -250,6 +268,23 @@ func mergeAnalysisConfig(base *analysis.Config, filename string, paths []string,
 	return cfg
 }
 
+// markSessionExports flags the definitions of this file that another file of
+// the session exports: (export 'name) may live in a different file of the same
+// package than (defun name ...).
+func markSessionExports(result *analysis.Result, session *sessionPackages) {
+	if result == nil {
+		return
+	}
+	for _, sym := range result.Symbols {
+		if sym == nil || sym.External || sym.Scope == nil || sym.Scope.Kind != analysis.ScopeGlobal {
+			continue
+		}
+		if session.exported[sym.Package][sym.Name] {
+			sym.Exported = true
+		}
+	}
+}
+
 func copyPackageExports(in map[string][]analysis.ExternalSymbol) map[string][]analysis.ExternalSymbol {
 	if in == nil {
 		return nil
@@ -261,22 +296,31 @@ func copyPackageExports(in map[string][]analysis.ExternalSymbol) map[string][]an
 	return out
 }
 
-func scanInputSymbols(files []parsedFile, cfg *Config) (map[string]fileSymbols, map[string][]analysis.ExternalSymbol) {
+func scanInputSymbols(files []parsedFile, cfg *Config) (map[string]fileSymbols, map[string][]analysis.ExternalSymbol, *sessionPackages) {
 	perFile := make(map[string]fileSymbols, len(files))
+	session := &sessionPackages{
+		exported: make(map[string]map[string]bool),
+		imports:  make(map[string][]string),
+	}
+	for _, file := range files {
+		globals, packages := scanProgramSymbols(file.exprs, cfg, session)
+		perFile[file.path] = fileSymbols{globals: globals, packages: packages}
+	}
+	// A name is exported from a package if ANY file of the session exports it.
 	pkgExports := make(map[string][]analysis.ExternalSymbol)
 	for _, file := range files {
-		globals, exports, packages := scanProgramSymbols(file.exprs, cfg)
-		perFile[file.path] = fileSymbols{globals: globals, packages: packages}
-		for pkg, syms := range exports {
-			pkgExports[pkg] = append(pkgExports[pkg], syms...)
+		for _, sym := range perFile[file.path].globals {
+			if session.exported[sym.Package][sym.Name] {
+				pkgExports[sym.Package] = append(pkgExports[sym.Package], sym)
+			}
 		}
 	}
-	return perFile, pkgExports
+	return perFile, pkgExports, session
 }
 
-func scanProgramSymbols(exprs []*lisp.LVal, cfg *Config) ([]analysis.ExternalSymbol, map[string][]analysis.ExternalSymbol, map[string]bool) {
+func scanProgramSymbols(exprs []*lisp.LVal, cfg *Config, session *sessionPackages) ([]analysis.ExternalSymbol, map[string]bool) {
 	defs := make(map[string]analysis.ExternalSymbol)
-	exported := make(map[string]map[string]bool)
+	exported := session.exported
 	currentPkg := "user"
 	packages := map[string]bool{"user": true}
 
@@ -306,6 +350,10 @@ func scanProgramSymbols(exprs []*lisp.LVal, cfg *Config) ([]analysis.ExternalSym
 			if sym := topLevelSet(expr, currentPkg); sym != nil {
 				defs[currentPkg+"/"+sym.Name] = *sym
 			}
+		case "use-package":
+			if pkg := packageName(expr.Cells[1:]); pkg != "" && !containsString(session.imports[currentPkg], pkg) {
+				session.imports[currentPkg] = append(session.imports[currentPkg], pkg)
+			}
 		case "export":
 			names := exportNames(expr.Cells[1:])
 			if len(names) == 0 {
@@ -330,16 +378,19 @@ func scanProgramSymbols(exprs []*lisp.LVal, cfg *Config) ([]analysis.ExternalSym
 	}
 	sort.Strings(keys)
 	globals := make([]analysis.ExternalSymbol, 0, len(defs))
-	pkgExports := make(map[string][]analysis.ExternalSymbol)
 	for _, key := range keys {
-		sym := defs[key]
-		globals = append(globals, sym)
-		pkg, name, _ := strings.Cut(key, "/")
-		if exported[pkg][name] {
-			pkgExports[pkg] = append(pkgExports[pkg], sym)
+		globals = append(globals, defs[key])
+	}
+	return globals, packages
+}
+
+func containsString(list []string, s string) bool {
+	for _, x := range list {
+		if x == s {
+			return true
 		}
 	}
-	return globals, pkgExports, packages
+	return false
 }
 
 func topLevelDef(expr *lisp.LVal, kind analysis.SymbolKind, pkg string) *analysis.ExternalSymbol {
@@ -585,7 +636,7 @@ func applyAssignments(file *parsedFile, assignments map[*analysis.Symbol]string,
 	}
 
 	if cfg.RenameExports {
-		rewriteExports(file.exprs, file.analysis.RootScope, assignments)
+		rewriteExports(file.exprs, file.analysis.RootScope, assignments, assignmentKeys)
 	}
 }
 
@@ -604,7 +655,16 @@ func symbolLookupKey(sym *analysis.Symbol) string {
 	return fmt.Sprintf("%s|%s|%s|%d|%d", sym.Name, sym.Kind.String(), file, line, col)
 }
 
-func rewriteExports(exprs []*lisp.LVal, scope *analysis.Scope, assignments map[*analysis.Symbol]string) {
+func rewriteExports(exprs []*lisp.LVal, scope *analysis.Scope, assignments map[*analysis.Symbol]string, assignmentKeys map[string]string) {
+	// newNameOf also finds the assignment of a definition that lives in another
+	// file of the session (known here only as an external symbol).
+	newNameOf := func(sym *analysis.Symbol) (string, bool) {
+		if name, ok := assignments[sym]; ok {
+			return name, true
+		}
+		name, ok := assignmentKeys[symbolLookupKey(sym)]
+		return name, ok
+	}
 	currentPkg := lisp.DefaultUserPackage
 	for _, expr := range exprs {
 		if expr.Type != lisp.LSExpr || expr.IsQuoted() || len(expr.Cells) == 0 {
@@ -623,13 +683,13 @@ func rewriteExports(exprs []*lisp.LVal, scope *analysis.Scope, assignments map[*
 			switch {
 			case arg.Type == lisp.LSymbol:
 				if sym := scope.LookupLocalInPackage(arg.Str, currentPkg); sym != nil {
-					if newName, ok := assignments[sym]; ok {
+					if newName, ok := newNameOf(sym); ok {
 						arg.Str = newName //elps:mutates the minifier renames symbols in the AST it parsed for this run; the tree is tool-owned and never shared with an evaluator
 					}
 				}
 			case arg.Type == lisp.LSExpr && arg.IsQuoted() && len(arg.Cells) > 0 && arg.Cells[0].Type == lisp.LSymbol:
 				if sym := scope.LookupLocalInPackage(arg.Cells[0].Str, currentPkg); sym != nil {
-					if newName, ok := assignments[sym]; ok {
+					if newName, ok := newNameOf(sym); ok {
 						arg.Cells[0].Str = newName //elps:mutates the minifier renames symbols in the AST it parsed for this run; the tree is tool-owned and never shared with an evaluator
 					}
 				}
